@@ -34,6 +34,9 @@ fn main() {
             .location()
             .map(|l| format!("{}:{}", l.file(), l.line()))
             .unwrap_or_default();
+        if std::env::var("PROBE_PANIC_TRACE").is_ok() {
+            eprintln!("probe panic at {}: {}", loc, info);
+        }
         *LAST_PANIC.lock().unwrap() = Some(loc);
     }));
     let args: Vec<String> = std::env::args().collect();
